@@ -8,6 +8,7 @@ def cfg : Cfg :=
   { shift := Gen.C18.ioprioClassShift
     macrosCanonical := Gen.C18.ioprioMacrosCanonical
     nativeRange := Gen.C18.ioprioSetRangeCheck
+    nativeRangeEinval := Gen.C18.ioprioSetRangeRaisesEinval
     defaultLevel := Gen.C18.ioniceDefaultLevel
     levelMin := Gen.C18.ioniceLevelMin
     levelMax := Gen.C18.ioniceLevelMax
